@@ -161,6 +161,7 @@ func C20(c *Ctx) {
 	bootstrapSubset(c, "C20-j")
 	r.Rule("C20-k", "the ignore-case suffix is lexed alike by the three front-ends: the `ignore:` item of LitMatcher and CharClassMatcher in both grammars and the `if s.cur == 'i'` of the hand-written scanner's literal and class routines are all unconditional (an optional bare `i`) or all conditional - otherwise the front-ends split `\"a\"item` differently")
 	ignoreCaseSuffixAgreement(c, "C20-k")
+	r.Rule("C20-l", "the Makefile's comparison of stage 2 and stage 3 (target cmp: bootstrap-pigeon and pigeon on the same grammar, outputs compared byte for byte) runs pigeon with exactly the generation options bootstrap-pigeon hard-codes (builder.Nolint(true) ⇒ -nolint, nothing else): otherwise the documented fixpoint test fails on a tree that is a fixpoint")
 	r.Rule("C20-f", "sibling agreement of the two front-end grammars: every rule defined both in grammar/bootstrap.peg and in grammar/pigeon.peg (compared through their generated literals, positions and actions aside) has the same expression, except the listed rules where pigeon.peg extends the bootstrap subset")
 	r.Rule("C20-d", "for artifacts generated without -optimize-grammar: every position{line,col,offset} in the grammar literal satisfies line = 1 + newlines before offset, col = 1 + runes since the last newline; rule names, rule references, character-class texts and `.` occur at their offsets in the .peg")
 
@@ -185,6 +186,8 @@ func C20(c *Ctx) {
 		ok := err == nil && strings.Contains(strings.ReplaceAll(string(b), " ", ""), it.want)
 		r.Check(ok, "C20-b", "A."+it.file+":builder-options", "", it.file, "options as assumed for the artifact comparison ("+it.want+")", "the tool no longer builds with "+it.want+": the flags assumed for its artifact are wrong")
 	}
+	// ---- l: the Makefile's own fixpoint comparison
+	c20CmpRecipe(c, repo)
 	// ---- e: sibling agreement on literal decoding
 	c20Decoders(c)
 	flagMapping(c, c.G(), "C20-e")
@@ -754,4 +757,76 @@ func c20CodeVerbatim(c *Ctx) {
 		bad = append(bad, "Scanner.read does not store exactly the one rune it reads into cur unconditionally")
 	}
 	r.Check(len(bad) == 0 && len(paths) > 0, "C20-g", "G.bootstrap.Scanner.scanCode:appends-every-rune-it-consumes", "", g.Where(fd.Pos()), fmt.Sprintf("%d paths; every read() is followed by WriteRune(cur)", len(paths)), strings.Join(uniq(bad), "; "))
+}
+
+// c20CmpRecipe (C20-l): the recipe of the target that compares the output of bootstrap-pigeon with the output of
+// pigeon for the same grammar must generate both under the same options. bootstrap-pigeon has no flags: its options
+// are the ones its main hard-codes (builder.Nolint(true), established under C20-b), so the pigeon command of the
+// recipe carries -nolint and no other generation flag.
+func c20CmpRecipe(c *Ctx, repo string) {
+	r := c.R
+	rules, _, err := parseMakefile(filepath.Join(repo, "Makefile"))
+	if err != nil {
+		r.Fatal("Makefile: %v", err)
+		return
+	}
+	type cmd struct {
+		tool, peg string
+		flags     []string
+	}
+	n := 0
+	for _, mr := range rules {
+		var cmds []cmd
+		compares := false
+		for _, rc := range mr.Recipe {
+			rc = strings.TrimPrefix(rc, "@")
+			for _, part := range regexp.MustCompile(`&&|;|\|\|`).Split(rc, -1) {
+				f := strings.Fields(part)
+				// skip shell assignments in front of the command (boot=$$(mktemp))
+				for len(f) > 0 && strings.Contains(f[0], "=") && !strings.HasPrefix(f[0], "-") {
+					f = f[1:]
+				}
+				if len(f) == 0 {
+					continue
+				}
+				switch tool := filepath.Base(f[0]); tool {
+				case "cmp", "diff":
+					compares = true
+				case "pigeon", "bootstrap-pigeon":
+					cm := cmd{tool: tool}
+					for _, w := range f[1:] {
+						switch {
+						case strings.HasSuffix(w, ".peg"):
+							cm.peg = filepath.Clean(w)
+						case strings.HasPrefix(w, "-"):
+							cm.flags = append(cm.flags, w)
+						}
+					}
+					cmds = append(cmds, cm)
+				}
+			}
+		}
+		if !compares {
+			continue
+		}
+		for _, b := range cmds {
+			if b.tool != "bootstrap-pigeon" {
+				continue
+			}
+			for _, p := range cmds {
+				if p.tool != "pigeon" || p.peg != b.peg {
+					continue
+				}
+				n++
+				want := append([]string{"-nolint"}, b.flags...)
+				got := append([]string(nil), p.flags...)
+				sort.Strings(want)
+				sort.Strings(got)
+				r.Check(strings.Join(got, " ") == strings.Join(want, " "), "C20-l", "A.Makefile:"+mr.Target+":stages-compared-under-the-same-options", "", "Makefile",
+					"pigeon is run with "+strings.Join(want, " ")+", the options bootstrap-pigeon builds with",
+					fmt.Sprintf("target %s compares bootstrap-pigeon %s with pigeon %s %s: bootstrap-pigeon hard-codes builder.Nolint(true), so the two outputs differ in the nolint comments although the tree is a fixpoint (pigeon -nolint reproduces pigeon.go) - the repository's own fixpoint test always fails", mr.Target, b.peg, strings.Join(got, " "), p.peg))
+			}
+		}
+	}
+	r.Analysed["makefile_comparison_recipes"] = n
 }
